@@ -43,9 +43,9 @@ class Spy:
     def __enter__(self):
         real, calls = self.real, self.calls
 
-        def spy(n, errs=None):
+        def spy(n, *args, **kwargs):  # signature-agnostic: the library may pass more than (node, errs)
             calls.append(n)
-            return real(n, errs)
+            return real(n, *args, **kwargs)
 
         mvalidate.node = spy
         return self
@@ -200,7 +200,7 @@ def planted(rng, gen):
     for _ in range(rng.randint(0, 6)):
         nodes = anytrees.judged_nodes(t)
         n = rng.choice(nodes)
-        kind = rng.choice(["content", "attr", "child", "last_child", "unknown_child", "below_invalid", "dup"])
+        kind = rng.choice(["content", "attr", "child", "last_child", "unknown_child", "below_invalid", "dup", "same_id", "mixed_pair", "mixed_pair"])
         if kind == "content":
             n.content = rng.choice(treegen.BAD_CONTENT)
         elif kind == "attr":
@@ -216,6 +216,25 @@ def planted(rng, gen):
             c.add_child(Node("title"))
             c.children[0].add_child(Node("verifDeep", content="x"))
             n.add_child(c)
+        elif kind == "mixed_pair":
+            # an earlier node of a mixed-content rule whose text is replaced by children, a later node of the same rule left empty:
+            # the later one is invalid whatever was validated before it
+            from vlib.emlkit import mrule as _mr
+            cands = [x for x in nodes if _mr.node_mappings.get(x.name) in ("anyNameRule", "textRule")]
+            if len(cands) >= 2:
+                a, b = sorted(rng.sample(range(len(cands)), 2))
+                first, later = cands[a], cands[b]
+                if _mr.node_mappings[first.name] == _mr.node_mappings[later.name] and later not in treegen.all_nodes(first):
+                    first.content = None
+                    if not first.children:
+                        first.add_child(Node("value" if _mr.node_mappings[first.name] == "anyNameRule" else "para", content="x"))
+                    later.content = None
+                    later.remove_children()
+        elif kind == "same_id":
+            # two distinct nodes carrying one id string (loading a document twice, caller-supplied ids): still two nodes to judge
+            twin = Node(n.name, id=n.id, content=rng.choice([None, "x", n.content]))
+            twin.add_child(Node(rng.choice(list(gen.known)), id=n.id))
+            (n.parent or n).add_child(twin)
         elif kind == "dup" and n.parent is not None:
             n.parent.add_child(n.copy(), n.parent.children.index(n))
         log.append(f"{kind}@{n.name}")
